@@ -235,6 +235,16 @@ func (h *H) genTable(enc []byte, nrows, maxw int, breaks, invalid, blanks, long 
 		for j := 0; j < w; j++ {
 			vals = append(vals, genField(r, enc, breaks, invalid))
 		}
+		if r.Chance(0.06) {
+			for j := range vals {
+				vals[j] = []byte([]string{" ", "  ", "\t", " \t ", "   "}[r.Pick(5)])
+			}
+			if r.Chance(0.3) {
+				vals = [][]byte{[]byte(" ")}
+				w = 1
+			}
+			h.sum.Hist("csv-row-of-blank-cells")
+		}
 		if long && i == nrows/2 {
 			j := r.Pick(w)
 			vals[j] = append(vals[j], filler(r, r.Between(4000, 9000), enc)...)
@@ -756,9 +766,16 @@ func (h *H) genPlan() plan {
 			d.Rows = intp(n)
 		}
 		p.decls = []tdecl{d}
+		// untagged: the lines carry no marker, so a line may consist of blanks only (space padded
+		// fields that are all empty) - such a line is data, only completely empty lines are ignored
+		untagged := r.Chance(0.5)
 		var tags []string
 		for k := 0; k < n; k++ {
-			tags = append(tags, fmt.Sprintf("T%d", k+1))
+			if untagged {
+				tags = append(tags, "")
+			} else {
+				tags = append(tags, fmt.Sprintf("T%d", k+1))
+			}
 		}
 		for i := 0; i < ninst; i++ {
 			p.insts = append(p.insts, instance{decl: 0, tags: tags})
@@ -766,8 +783,10 @@ func (h *H) genPlan() plan {
 		for k := 1; k <= n+1; k++ {
 			p.sel = append(p.sel, colSel{LineIndex: intp(k)})
 		}
-		for k := 1; k <= n; k++ {
-			p.sel = append(p.sel, colSel{LinePat: &pat{Prefix: true, Lit: fmt.Sprintf("T%d", k)}})
+		if !untagged {
+			for k := 1; k <= n; k++ {
+				p.sel = append(p.sel, colSel{LinePat: &pat{Prefix: true, Lit: fmt.Sprintf("T%d", k)}})
+			}
 		}
 		p.sel = append(p.sel, colSel{}, colSel{LinePat: &pat{Prefix: false, Lit: "zzNOzz"}})
 	case 1: // optional single-line header record, then header/footer based target records
@@ -782,7 +801,7 @@ func (h *H) genPlan() plan {
 		for i := 0; i < ninst; i++ {
 			tags := []string{"BG"}
 			for k, m := 0, r.Between(0, 3); k < m; k++ {
-				tags = append(tags, []string{"M1", "M2", "BX"}[r.Pick(3)])
+				tags = append(tags, []string{"M1", "M2", "BX", "", ""}[r.Pick(5)])
 			}
 			p.insts = append(p.insts, instance{decl: 1, tags: append(tags, "EN")})
 		}
@@ -889,6 +908,9 @@ func (h *H) csv2Case() {
 			}
 			if long && ii == len(p.insts)/2 && k == 0 {
 				vals = append(vals, filler(r, r.Between(4000, 9000), enc))
+			}
+			if replace && len(vals) == 1 && len(vals[0]) == 0 { // would be an empty line
+				vals = append(vals, []byte("v"))
 			}
 			if bytes.Contains([]byte(tag), enc) { // the delimiter is a letter of the tag
 				return
@@ -1040,6 +1062,9 @@ func (h *H) fixedLines(p *plan, width int, long bool) (input []byte, nlines int,
 					n = r.Between(4000, 12500)
 				}
 			}
+			if us == nil && tag == "" {
+				us = blankOrText(r, width)
+			}
 			if us == nil {
 				us = append(tagUnits(tag), genUnits(r, n, r.Chance(0.3))...)
 			}
@@ -1072,6 +1097,29 @@ func (h *H) fixedLines(p *plan, width int, long bool) (input []byte, nlines int,
 		return false
 	}
 	return
+}
+
+// blankOrText: an untagged (never empty) line - often made of blanks only, sometimes one space
+func blankOrText(r *vh.Rng, width int) []unit {
+	switch k := r.Pick(10); {
+	case k < 2:
+		return []unit{{' '}}
+	case k < 5:
+		n := r.Between(1, width+3)
+		us := make([]unit, n)
+		for i := range us {
+			us[i] = unit{" \t "[r.Pick(3)]}
+		}
+		return us
+	case k == 5:
+		return []unit{{'\t'}}
+	default:
+		us := genUnits(r, r.Between(1, width+3), r.Chance(0.3))
+		if r.Chance(0.3) { // leading blanks
+			us = append([]unit{{' '}, {' '}}, us...)
+		}
+		return us
+	}
 }
 
 func (h *H) fixedCols(p *plan, width int, lineIndexOK, long bool) []fcol {
@@ -1270,8 +1318,13 @@ func (h *H) fixed1Case() {
 	var cols []fcol
 	if byRows {
 		n := r.Between(1, 3)
+		untagged := r.Chance(0.4)
 		var tags []string
 		for k := 0; k < n; k++ {
+			if untagged {
+				tags = append(tags, "")
+				continue
+			}
 			tags = append(tags, fmt.Sprintf("T%d", k+1))
 			p.sel = append(p.sel, colSel{LinePat: &pat{Prefix: true, Lit: fmt.Sprintf("T%d", k+1)}})
 		}
@@ -1316,7 +1369,7 @@ func (h *H) fixed1Case() {
 		for i := 0; i < ninst; i++ {
 			tags := []string{"BG"}
 			for k, m := 0, r.Between(0, 3); k < m; k++ {
-				tags = append(tags, []string{"M1", "M2", "BX"}[r.Pick(3)])
+				tags = append(tags, []string{"M1", "M2", "BX", "", ""}[r.Pick(5)])
 			}
 			p.insts = append(p.insts, instance{decl: tgt, tags: append(tags, "EN")})
 		}
